@@ -630,6 +630,8 @@ class Discharger:
                 iap = fn.apath(iop)
                 if c is not None:
                     need = c + 1
+                elif iap[0][0] == "const" and isinstance(iap[0][1], int) and not iap[1]:
+                    need = iap[0][1] + 1          # the literal index went through a temporary
                 elif iap[0][0] == "agg" and str(iap[0][1]).endswith(("RangeFrom::RangeFrom", "RangeFrom", "RangeTo::RangeTo", "RangeTo")) and len(iap[0][2]) == 1 \
                         and iap[0][2][0][0][0] == "const" and isinstance(iap[0][2][0][0][1], int) and not iap[1]:
                     need = iap[0][2][0][0][1]
@@ -637,6 +639,31 @@ class Discharger:
                 need = 1 if s.kind != "assert" and not index else None
         if need is None:
             return None
+        if need == 1 and s.kind == "assert" and "{closure" in fn.path:
+            # D13: the slice is an element of slice::chunk_by / chunks / windows / split_inclusive ..: std yields only non-empty
+            # sub-slices there.  `fn` is the closure handed to an iterator adaptor whose receiver is such an iterator, and the
+            # indexed slice is the closure's element parameter
+            src = place_of(s.term["msg"]["a"])
+            param = None
+            ds = fn.defs().get(src["l"], []) if src is not None and not src["p"] else []
+            if len(ds) == 1 and ds[0][0] == "stmt":
+                rv = ds[0][3]
+                q = place_of(rv.get("a")) if rv.get("k") == "unop" and rv.get("op") == "PtrMetadata" else (rv.get("place") if rv.get("k") == "len" else None)
+                if q is not None and 2 <= q["l"] <= fn.raw["arg_count"] and not [x for x in q["p"] if x != "*"] and not fn.defs().get(q["l"]):
+                    param = q["l"]
+            if param is not None:
+                NONEMPTY = ("slice::iter::ChunkBy<", "slice::iter::ChunkByMut<", "slice::iter::Chunks<", "slice::iter::ChunksExact<", "slice::iter::RChunks<",
+                            "slice::iter::Windows<")
+                parent = self.F.fns.get((fn.raw.get("root") or {}).get("id"))
+                for g in ([parent] if parent is not None else []) + [c for c in self.F.by_crate.get(fn.crate, []) if fn.path.startswith(c.path + "::{closure")]:
+                    for bb, t in g.calls():
+                        if "callee" not in t or len(t["args"]) < 2:
+                            continue
+                        a1 = g.apath(t["args"][1])
+                        if a1[0][0] == "agg" and a1[0][1] == "closure:" + fn.path and t["callee"]["path"].split("::")[-1] in ("map", "for_each", "filter_map", "flat_map", "all", "any"):
+                            rty = str((place_of(t["args"][0]) or {}).get("ty", ""))
+                            if any(n_ in rty for n_ in NONEMPTY) and "Rev<" not in rty.split("slice::iter")[0]:
+                                return ("D13", "element of %s: std yields non-empty sub-slices" % rty.split("<")[0].split("::")[-1])
         for g in fn.guards_of(s.bb):
             d = fn.guard_desc(g)
             if d[0] == "bool":
